@@ -241,10 +241,15 @@ class KindEval:
                 elem = it[1] if it[0] in ("list", "iter") else (TUPLE(it[1], it[2]) if it[0] == "dict" else UNKNOWN)
                 if it[0] == "dict":
                     elem = it[1]
+                if it[0] == "row":
+                    elem = STR  # iterating a table row yields its column keys
                 self.bind(stmt.target, elem, env)
                 # shape: a loop over a raw container must convert unconditionally
+                loops = self.__dict__.setdefault("_loops", [])
+                loops.append(({n.id for n in ast.walk(stmt.target) if isinstance(n, ast.Name)}, {n.id for n in ast.walk(stmt.iter) if isinstance(n, ast.Name)}))
                 self.exec_block(meth, stmt.body, env, results)
                 self.exec_block(meth, stmt.body, env, results)  # second pass: joins of appended kinds
+                loops.pop()
                 if leaks(it):
                     for node in stmt.body:
                         if isinstance(node, (ast.If, ast.Break, ast.Continue)):
@@ -271,8 +276,22 @@ class KindEval:
                     elif cur == PYROW or cur == PY:
                         if leaks(k) or leaks(v):
                             env[recv] = DICT(k, v)
+                    elif cur is not None and leaks(cur) and not self._key_of(tgt.slice, recv):
+                        pass  # one key of a raw row re-bound: the other cells stay raw (only a loop over the row's own keys converts it)
                     else:
                         env[recv] = DICT(k, v)
+            if isinstance(stmt, ast.Assign) and len(stmt.targets) == 1 and isinstance(stmt.targets[0], ast.Name):
+                src = strip_casts(stmt.value)
+                if isinstance(src, ast.Call) and ((isinstance(src.func, ast.Name) and src.func.id in ("dict", "OrderedDict") and len(src.args) == 1 and isinstance(src.args[0], ast.Name)) or (isinstance(src.func, ast.Attribute) and src.func.attr == "copy" and isinstance(src.func.value, ast.Name))):
+                    origin = src.args[0].id if isinstance(src.func, ast.Name) else src.func.value.id
+                    self.__dict__.setdefault("_copy_of", {})[stmt.targets[0].id] = origin
+
+    def _key_of(self, key: ast.AST, recv: str) -> bool:
+        """Is *key* the variable of an enclosing loop over the container *recv* itself (or the one it was copied from)?"""
+        if not isinstance(key, ast.Name):
+            return False
+        sources = {recv, self.__dict__.get("_copy_of", {}).get(recv, recv)}
+        return any(key.id in targets and (iter_names & sources) for targets, iter_names in self.__dict__.get("_loops", []))
 
     def bind(self, tgt: ast.AST, kind, env: Dict[str, Any]) -> None:
         if isinstance(tgt, ast.Name):
@@ -404,6 +423,16 @@ class KindEval:
                 if func.id in ("sorted", "reversed") and leaks(inner):
                     self.shape_issues.append((meth, call, f"{func.id}() reorders the raw result"))
                 return LIST(inner[1]) if inner[0] in ("list", "iter") else inner
+            if func.id == "map" and len(call.args) == 2 and not call.keywords:
+                # map(f, xs) is (f(x) for x in xs)
+                var = ast.Name(id="__map_item", ctx=ast.Load())
+                gen = ast.GeneratorExp(
+                    elt=ast.Call(func=call.args[0], args=[var], keywords=[]),
+                    generators=[ast.comprehension(target=ast.Name(id="__map_item", ctx=ast.Store()), iter=call.args[1], ifs=[], is_async=0)],
+                )
+                ast.copy_location(gen, call)
+                ast.fix_missing_locations(gen)
+                return self.kind(meth, gen, env)
             if func.id == "zip" and call.args:
                 elems = []
                 roots = set()
